@@ -292,6 +292,11 @@ class PrettyPrinter:
         # symbol needs special treatment
         if key == "symbol" and level > 0:
             return False
+        # keywords sharing a block's name (STYLE HILITE, SYMBOL "circle") are simple values
+        if key in COMPLEX_TYPES and not isinstance(
+            composite[key], (dict, list, tuple)
+        ):
+            return False
         return (
             key in COMPLEX_TYPES
             or self.is_composite(key)
